@@ -18,6 +18,12 @@ class Monitor(Observer):
     def __init__(self, ctx):
         self.ctx = ctx
 
+    def after(self, bt, spec, root, dates, step, i):
+        # conservation at the level of a single operation (theorem C02.step_total evaluated on the real state)
+        for key, msg in M.live_total_check(step):
+            self.ctx.violation("C02/" + key, "op %d: %s" % (i, msg), {"spec": spec, "mode": "history", "upto": i})
+        self.ctx.count("total-conservation-steps")
+
     def finish(self, bt, spec, root, dates, steps):
         ok_steps = [s for s in steps if "err" not in s]
         if not ok_steps:
@@ -40,6 +46,9 @@ def check_program(ctx, bt, spec, b, log):
 
 
 def run(ctx, bt):
+    from .. import gen_engine as _G
+    run_engine_protocol(ctx, bt, ctx.scale(25, 400), [Monitor(ctx)], FOOT_FIELDS, None, spec_kwargs={"fi_tree": True},
+                        spec_mutator=_G.carry_open_close, corr_name="step[C02]:carry-open-close")
     run_engine_protocol(ctx, bt, ctx.scale(110, 1200), [Monitor(ctx)], FOOT_FIELDS, None, corr_name="step[C02]")
     run_programs(ctx, bt, ctx.scale(90, 1500), check_program)
     from ..runs_run import run_steps_protocol
